@@ -19,7 +19,11 @@ RULE = ("tk/mp/mx: the real tokens_get / macros_parse / macros_expand_params run
         "arguments and parameter lists at the limits -6..+1, arena fill; answers compared byte for byte.  Oracle: every "
         "in-process answer (a sanitizer report, a signal or a timeout is a failure), one garbage instruction per source for "
         "every CPU of cpu_list, every directive with missing/garbage operands, and process-level runs of the sanitised "
-        "naken_asm on the hostile classes of the property text with a CPU-time limit linear in the input size.  "
+        "naken_asm on the hostile classes of the property text with a CPU-time limit linear in the input size "
+        "(conditionals nested through every entry path: taken branch, .else part of a false .if/.ifdef/.ifndef, mixed, from "
+        "include files and .repeat, at MAX-1/MAX/MAX+1/5000/50000).  nest: event sequences (both recursion sites of the "
+        "conditionals, include, repeat, macro) rendered to sources: recursion depth reported by the NV_TRACE hook and the "
+        "way the run ends against Reader/Nest.lean.  "
         "distinct = distinct lines / sources; non-trivial = longer than 8 bytes.")
 MODELLED = ("tokens_get_char, tokens_unget_char, tokens_get (accumulation loop, post-processing, macro entry, expansion budget), "
             "tokens_push, macros_get_char, macros_push_define, macros_parse_token, macros_parse (parameter list, body loop), "
@@ -77,6 +81,59 @@ def correspondence(ctx, corr):
     corr["distinct_nontrivial"] = len(set(l for l in lines if len(l) > 40))
     step = max(1, len(lines) // 6)
     corr["samples"] = [{"line": lines[i][:200], "impl": h[i][:200], "model": d[i][:200]} for i in range(0, len(lines), step)][:6]
+    nest_stream(ctx, corr, L)
+
+
+def run_nest(exe, tmp, idx, events):
+    """the real (sanitised) naken_asm on the rendering of an event sequence, with the NV_TRACE hook on: how deep did
+    assemble() recurse, and how did the run end"""
+    src, files = G.render_nest(events)
+    d = os.path.join(tmp, "nest%d" % idx)
+    os.makedirs(d, exist_ok=True)
+    for fn, c in list(files.items()) + [("t.asm", src)]:
+        with open(os.path.join(d, fn), "w") as f:
+            f.write(c)
+    env = dict(nvlib.SAN_ENV)
+    env["NV_TRACE"] = "1"
+    try:
+        r = subprocess.run([exe, "-o", "t.out", "t.asm"], cwd=d, stdout=subprocess.PIPE, stderr=subprocess.PIPE, env=env, timeout=120)
+        rc, out, err = r.returncode, r.stdout.decode("latin-1"), r.stderr.decode("latin-1")
+    except subprocess.TimeoutExpired:
+        rc, out, err = -999, "", ""
+    for fn in os.listdir(d):
+        os.unlink(os.path.join(d, fn))
+    os.rmdir(d)
+    depths = [int(x) for x in re.findall(r"^NVT enter (\d+)", err, re.M)]
+    mx = max(depths) if depths else 0
+    if rc == 0:
+        return "ok max=%d" % mx
+    if rc == 1:
+        kind = ("ifs" if "Conditionals nested too deep" in out else "includes" if "Includes nested too deep" in out
+                else "repeat" if re.search(r"Unexpected token 'repeat'", out) else "other:" + out.strip().split("\n")[-3:][0][:60])
+        return "err=%s max=%d" % (kind, mx)
+    san = re.search(r"(ERROR: AddressSanitizer: \S+)", err)
+    return "DIED rc=%d max=%d %s" % (rc, mx, san.group(1) if san else "")
+
+
+def nest_stream(ctx, corr, L):
+    """model Reader/Nest.lean (both recursion sites of the conditionals, include, repeat) against the recursion depth
+    the trace hook reports and the way the run ends"""
+    seqs = G.nest_sequences(ctx, L)
+    exe, tmp = ctx.repo["naken_asm"], ctx.tmpdir()
+    with ThreadPoolExecutor(min(12, nvlib.NPROC)) as ex:
+        impl = list(ex.map(lambda a: run_nest(exe, tmp, a[0], a[1][1]), enumerate(seqs)))
+    lines = ["nest " + ev.replace("M", "").replace("m", "") for _, ev in seqs]
+    model = [re.sub(r" at=\d+", "", m) for m in ctx.model(lines)]
+    ctx.notes["nest"] = list(zip(seqs, impl))
+    dist, outcomes = {}, {}
+    for (cls, ev), a, b in zip(seqs, impl, model):
+        dist[cls] = dist.get(cls, 0) + 1
+        outcomes[a.split(" ")[0]] = outcomes.get(a.split(" ")[0], 0) + 1
+        if a != b:
+            corr["disagreements"].append({"line": ("nest[%s] " % cls + ev)[:3000], "impl": a[:300], "model": b[:300]})
+    corr["cases"] += len(lines)
+    corr["streams"]["nest"] = {"sequences": len(seqs), "classes": dist, "impl_outcomes": outcomes,
+                               "deepest": max([len(ev) for _, ev in seqs] + [0])}
 
 
 # ---------------------------------------------------------------------------
@@ -250,6 +307,20 @@ def oracle(ctx, orc, focus=None):
                                     "source_hex": nvlib.hexs(src), "files": {k: nvlib.hexs(v) for k, v in files.items()}})
     stats["process_classes"] = pc
     stats["slowest_process_run"] = slowest
+    # 3b. the nesting sequences of the correspondence stream: a run that dies is a failure by itself
+    nest = ctx.notes.get("nest")
+    if nest is None:
+        seqs = G.nest_sequences(ctx, L)
+        with ThreadPoolExecutor(min(12, nvlib.NPROC)) as ex:
+            nest = list(zip(seqs, ex.map(lambda a: run_nest(exe, tmp, a[0], a[1][1]), enumerate(seqs))))
+    stats["nest_runs"] = len(nest)
+    for (cls, ev), a in nest:
+        orc["cases"] += 1
+        if a.startswith("DIED"):
+            src, files = G.render_nest(ev)
+            orc["failures"].append({"sig": "C16:crash:nest-%s:%s" % (cls, re.sub(r"max=\d+ ?", "", a)[5:60].strip()), "input": src[:300],
+                                    "expected": "exit status 0 or 1", "observed": a, "what": "naken_asm died on nested blocks",
+                                    "args": [], "source_hex": nvlib.hexs(src), "files": {k: nvlib.hexs(v) for k, v in files.items()}})
     # 4. closed-world audits of the source text
     for sig, exp, obs in audits():
         orc["cases"] += 1
